@@ -10,6 +10,8 @@ import (
 	"net/http/httptest"
 
 	"fmt"
+	"os"
+
 	"github.com/prometheus/common/expfmt"
 	"math"
 	"sort"
@@ -25,6 +27,7 @@ import (
 	vegeta "github.com/tsenart/vegeta/v12/lib"
 	"github.com/tsenart/vegeta/v12/lib/prom"
 	"github.com/tsenart/vegeta/v12/verifshim/ev"
+	"github.com/tsenart/vegeta/v12/verifshim/vsched"
 )
 
 const (
@@ -351,10 +354,173 @@ func check(mode string, rs []vegeta.Result, mfs []*dto.MetricFamily, err error) 
 	return out
 }
 
+// ---- interleavings of concurrent observers --------------------------------------
+//
+// lib/prom/prom.go is built in the instrumenter's statement mode: a scheduling point in front of every one of
+// its statements. 2-3 observers call Observe on one Metrics value at the same time; the explorer enumerates the
+// interleavings of their statements up to a preemption bound, and after every one the registry is gathered and
+// compared with the sums, exactly as in the sequential part. (The client library below is synchronised
+// internally and is not interleaved; no observer is ever descheduled inside it.)
+
+type mcPlan struct {
+	name    string
+	threads [][]int // per observer: indices into mcPool
+	bound   int
+}
+
+func mcPool() []vegeta.Result {
+	p := pool()
+	return []vegeta.Result{p[0], p[10], p[2], p[9]} // GET u1 200 / GET u1 404 / POST u2 500 e1 / GET u1 200 with an error text
+}
+
+func mcPlans() []mcPlan {
+	var ps []mcPlan
+	n := len(mcPool())
+	var seqs [][]int
+	ev.Seqs(n, 1, 2, func(seq []int) { seqs = append(seqs, append([]int(nil), seq...)) })
+	for _, a := range seqs {
+		for _, b := range seqs {
+			if fmt.Sprint(a) > fmt.Sprint(b) {
+				continue // the two observers are symmetric
+			}
+			ps = append(ps, mcPlan{fmt.Sprintf("observers=2,a=%v,b=%v", a, b), [][]int{a, b}, ev.Pick(3, 5)})
+		}
+	}
+	for i := 0; i < n; i++ {
+		for j := i; j < n; j++ {
+			for k := j; k < n; k++ {
+				ps = append(ps, mcPlan{fmt.Sprintf("observers=3,a=[%d],b=[%d],c=[%d]", i, j, k), [][]int{{i}, {j}, {k}}, ev.Pick(2, 4)})
+			}
+		}
+	}
+	return ps
+}
+
+type mcWorld struct {
+	pl  mcPlan
+	reg *prometheus.Registry
+	rs  []vegeta.Result
+	err error
+}
+
+func (w *mcWorld) main() {
+	w.reg = prometheus.NewRegistry()
+	pm := prom.NewMetrics()
+	if w.err = pm.Register(w.reg); w.err != nil {
+		return
+	}
+	p := mcPool()
+	for _, idx := range w.pl.threads {
+		mine := make([]vegeta.Result, len(idx))
+		for i, x := range idx {
+			mine[i] = p[x]
+		}
+		w.rs = append(w.rs, mine...)
+		vsched.GoEnv(func() {
+			for i := range mine {
+				pm.Observe(&mine[i])
+			}
+		})
+	}
+}
+
+func (w *mcWorld) end(s *vsched.Sched, r *vsched.Result) (string, string) {
+	if w.err != nil {
+		return "register: " + w.err.Error(), "register-error"
+	}
+	mfs, err := w.reg.Gather()
+	fs := check("interleaved-observers", w.rs, mfs, err)
+	if len(fs) == 0 {
+		return "", "sums"
+	}
+	return fmt.Sprintf("%s: %v", fs[0].key, fs[0].detail["discrepancies"]), "wrong"
+}
+
+func mcJobs() []vsched.Job {
+	dl := time.Now().Add(ev.Pick(150*time.Second, 30*time.Minute))
+	var jobs []vsched.Job
+	for _, pl := range mcPlans() {
+		pl := pl
+		sc := vsched.Scenario{Name: pl.name, Make: func() vsched.Instance {
+			w := &mcWorld{pl: pl}
+			return vsched.Instance{Main: w.main, End: w.end}
+		}}
+		n := 0
+		for _, t := range pl.threads {
+			n += len(t)
+		}
+		// (no state cache: every point is an operation on the same pseudo object, so no two interleavings share a state)
+		jobs = append(jobs, vsched.Job{Sc: sc, Cfg: vsched.Config{Bound: pl.bound, Iterate: true, Deadline: dl}, Weight: n*10 + len(pl.threads)})
+	}
+	return jobs
+}
+
+func mcExplore(R *ev.Run) {
+	jobs := mcJobs()
+	stats := vsched.ExploreAll(jobs, 16, "TestC20")
+	type row struct {
+		Scenario string `json:"scenario"`
+		Bound    int    `json:"preemption_bound"`
+		Done     int    `json:"completed_bound"`
+		Execs    int64  `json:"executions"`
+		Capped   string `json:"capped,omitempty"`
+	}
+	var rows []row
+	var execs int64
+	for i, st := range stats {
+		R.Eval(int(st.Execs))
+		R.Trace(int(st.Complete))
+		R.Trans(int(st.Transitions))
+		R.State(int(st.States))
+		R.Replayed(st.Replayed)
+		execs += st.Execs
+		R.Distinct("mc|" + st.Scenario)
+		if st.Capped != "" {
+			R.Cap(st.Scenario + ": " + st.Capped)
+		}
+		if i%25 == 0 {
+			rows = append(rows, row{st.Scenario, st.Bound, st.Completed, st.Execs, st.Capped})
+		}
+		if i == 3 && len(st.SampleTrace) > 0 {
+			R.Sample(map[string]any{"scenario": st.Scenario, "schedule": st.SampleTrace})
+		}
+		for _, v := range st.Violations {
+			if !v.Stable {
+				R.Cap("engine: violation did not replay identically in " + st.Scenario)
+				fmt.Printf("ENGINE-ERROR: unstable violation in %s: %s\n", st.Scenario, v.Message)
+				continue
+			}
+			key := "interleaved:" + strings.SplitN(v.Message, ": ", 2)[0]
+			R.Violation(key, map[string]any{"scenario": st.Scenario, "message": v.Message, "choices": v.Choices, "trace": v.Trace, "preemptions": v.Preempt})
+		}
+	}
+	R.Part("interleavings", "scenarios (2 observers x 1-2 results, 3 observers x 1 result, over 4 results)", len(jobs))
+	R.Set("interleaving_scenarios_sample", rows)
+	R.Set("interleaving_executions", execs)
+}
+
 func TestC20(t *testing.T) {
+	if vsched.IsChild() {
+		vsched.ExploreAll(mcJobs(), 16, "TestC20") // does not return
+	}
+	if rp := os.Getenv("VERIF_REPLAY"); rp != "" {
+		var scs []vsched.Scenario
+		for _, j := range mcJobs() {
+			scs = append(scs, j.Sc)
+		}
+		if v, err := vsched.ReplayFile(rp, scs); err == nil {
+			if v != "" {
+				fmt.Printf("VIOLATION property=%s replay=%s\n  %s\n", "C20", rp, v)
+				t.Fatalf("replayed violation: %s", v)
+			}
+			fmt.Println("replay: no violation on this schedule")
+			return
+		}
+		// not a schedule file: the enumeration below reproduces it
+	}
 	R := ev.New("C20")
-	R.Rule = "all ordered sequences of length 0..L over a pool of 7 results, each observed into a fresh registry (sequentially; length>=2 also from two goroutines); a case is distinct+non-trivial when its ordered sequence differs and either two of its results share a (method,url,status) label set (so a sum, not a single value, is compared) or it contains a result with a non-empty error"
-	R.Assume("prometheus client_golang registry/Gather and the client_model getters are trusted; the client library is internally synchronised, so the two-goroutine runs are compared by outcome only (no schedule exploration)")
+	R.Rule = "all ordered sequences of length 0..L over a pool of 7 results, each observed into a fresh registry (sequentially; length>=2 also from two free-running goroutines); plus every interleaving, at statement granularity and up to a preemption bound, of 2-3 concurrent observers on lib/prom/prom.go under the controlled scheduler; a case is distinct+non-trivial when its ordered sequence differs and either two of its results share a (method,url,status) label set (so a sum, not a single value, is compared) or it contains a result with a non-empty error"
+	R.Assume("prometheus client_golang registry/Gather and the client_model getters are trusted; the client library is internally synchronised and is not interleaved internally: scheduling points sit in front of every statement of lib/prom/prom.go only")
 	R.Assume("cumulative bucket membership is decided on Latency.Seconds() as a float64, the unit the metric is documented in")
 	p := pool()
 	L := ev.Pick(4, 5) // all sequences of length 0..L over the pool
@@ -468,6 +634,8 @@ func TestC20(t *testing.T) {
 	}
 	R.State(len(multisets)) // distinct final registry contents = distinct multisets of observations
 	R.Set("multisets", len(multisets))
+
+	mcExplore(R)
 
 	if ev.Thorough() {
 		// scale check (labelled non-exhaustive): one 10^4-long round-robin.
